@@ -186,9 +186,12 @@ def run_plumbing(chk: Check, prog: Program) -> None:
                 it.hooks[f"{k}.operate"] = h_operate
             return it.call_function(m, [node, ctx], {})
 
-        for p in explore(prog, body, {"max_updepth": 0}):
+        # one-operand nodes are interpreted with the operand recorded on either side
+        sides = (False, True) if base == "UnaryExpression" else (False,)
+        paths = [(col_, p_) for col_ in sides for p_ in explore(prog, body, {"max_updepth": 0, "child_on_left": col_})]
+        for col_, p in paths:
             it = p.interp
-            label = f"{kind} -> {m.qualname}: {p.cond or 'single path'}"
+            label = f"{kind} -> {m.qualname}{' (operand on the left)' if col_ else ''}: {p.cond or 'single path'}"
             key = f"C05.R2:{kind}:{m.qualname}"
             probs = []
             if p.outcome != "return":
